@@ -137,13 +137,28 @@ def _worklist_for(body, i, uses):
     (for_node, statements consumed) or None."""
     st = body[i]
     if not (isinstance(st, ast.Assign) and len(st.targets) == 1
-            and isinstance(st.targets[0], ast.Name) and isinstance(st.value, ast.Call)
-            and isinstance(st.value.func, ast.Name) and st.value.func.id in ("list", "sorted")
-            and not st.value.keywords and len(st.value.args) == 1):
+            and isinstance(st.targets[0], ast.Name)):
+        return None
+    comp = isinstance(st.value, ast.ListComp) and len(st.value.generators) == 1 \
+        and not st.value.generators[0].is_async
+    if not comp and not (isinstance(st.value, ast.Call)
+                         and isinstance(st.value.func, ast.Name)
+                         and st.value.func.id in ("list", "sorted")
+                         and not st.value.keywords and len(st.value.args) == 1):
         return None
     L = st.targets[0].id
     src, rev = st.value, False
-    if src.func.id == "list":
+    if comp:
+        # [e for v in reversed(X) if c], taken from the end, is [e for v in X if c] in order
+        g = src.generators[0]
+        if isinstance(g.iter, ast.Call) and isinstance(g.iter.func, ast.Name) \
+                and g.iter.func.id == "reversed" and len(g.iter.args) == 1 \
+                and not g.iter.keywords:
+            src = ast.ListComp(elt=src.elt, generators=[ast.comprehension(
+                target=g.target, iter=g.iter.args[0], ifs=g.ifs, is_async=0)])
+            ast.copy_location(src, st.value)
+            rev = True
+    elif src.func.id == "list":
         src = src.args[0]
         if isinstance(src, ast.Call) and isinstance(src.func, ast.Name) \
                 and src.func.id == "reversed" and len(src.args) == 1 and not src.keywords:
@@ -155,6 +170,18 @@ def _worklist_for(body, i, uses):
             and body[j].value.func.value.id == L and body[j].value.func.attr == "reverse" \
             and not body[j].value.args:
         rev, j, n_uses = not rev, j + 1, 4
+    # initialisations of other locals to empty / constant values may stand in between
+    inits = []
+    while j < len(body) and isinstance(body[j], ast.Assign) and len(body[j].targets) == 1 \
+            and isinstance(body[j].targets[0], ast.Name) and body[j].targets[0].id != L and (
+                isinstance(body[j].value, ast.Constant)
+                or (isinstance(body[j].value, (ast.List, ast.Tuple, ast.Set)) and not body[j].value.elts)
+                or (isinstance(body[j].value, ast.Dict) and not body[j].value.keys)
+                or (isinstance(body[j].value, ast.Call) and isinstance(body[j].value.func, ast.Name)
+                    and body[j].value.func.id in ("list", "dict", "set")
+                    and not body[j].value.args and not body[j].value.keywords)):
+        inits.append(body[j])
+        j += 1
     if j >= len(body) or not isinstance(body[j], ast.While) or uses.get(L) != n_uses:
         return None
     w = body[j]
@@ -184,12 +211,12 @@ def _worklist_for(body, i, uses):
         return None
     forward = (rev and from_end) or (not rev and not from_end)
     it = src if forward else ast.Call(func=ast.Name(id="reversed", ctx=ast.Load()),
-                                      args=[st.value], keywords=[])
+                                      args=[src if comp else st.value], keywords=[])
     rest = w.body[1:] or [ast.Pass()]
     new = ast.For(target=first.targets[0], iter=it, body=rest, orelse=w.orelse, type_comment=None)
     ast.copy_location(new, w)
     ast.fix_missing_locations(new)
-    return new, j + 1 - i
+    return inits + [new], j + 1 - i
 
 
 def _all_but_position(tree):
@@ -260,7 +287,7 @@ def normalise_worklists(tree):
                 while i < len(b):
                     m = _worklist_for(b, i, uses)
                     if m:
-                        out.append(m[0])
+                        out.extend(m[0])
                         i += m[1]
                         changed = True
                     else:
